@@ -12,7 +12,7 @@ cd $WT
 demos=()
 for pair in "$@"; do src="${pair%%:*}"; dst="${pair##*:}"; cp "$src" "$WT/$dst/" || exit 2; demos+=("$dst/$(basename "$src")"); done
 echo "== demonstration WITHOUT the change"
-go test -vet=off -count=1 -run "$runre" $pkgs 2>&1 | tail -4 | tee /tmp/vs_without.log
+go test -vet=off -count=1 ${VS_TESTFLAGS:-} -run "$runre" $pkgs 2>&1 | tail -4 | tee /tmp/vs_without.log
 without_ok=$(grep -c "^ok" /tmp/vs_without.log)
 git apply "$patch" || { echo "PATCH DOES NOT APPLY"; exit 2; }
 echo "== build WITH the change"; go build ./... 2>&1 | tail -3
@@ -21,7 +21,7 @@ for d in "${demos[@]}"; do mv "$WT/$d" "$WT/$d.away"; done
 go test -vet=off -count=1 ./... 2>&1 | grep -v "^ok\|no test files" | grep -v "TestGorumsStability\|TestGenerateProtoFiles" | tail -8 | tee /tmp/vs_suite.log
 for d in "${demos[@]}"; do mv "$WT/$d.away" "$WT/$d"; done
 echo "== demonstration WITH the change"
-go test -vet=off -count=1 -run "$runre" $pkgs 2>&1 | tail -6 | tee /tmp/vs_with.log
+go test -vet=off -count=1 ${VS_TESTFLAGS:-} -run "$runre" $pkgs 2>&1 | tail -6 | tee /tmp/vs_with.log
 with_fail=$(grep -c "^FAIL\|^--- FAIL\|panic:" /tmp/vs_with.log)
 cd /verif
 if [ "$without_ok" -ge 1 ] && [ "$with_fail" -ge 1 ]; then
